@@ -138,7 +138,7 @@ func VerifC15ObjectOps() {
 		v.Cover("loaded")
 	}
 	for step := 0; step < 2; step++ {
-		op := v.Concretize(v.Int("op", 0, 2))
+		op := v.Concretize(v.Int("op", 0, 3))
 		k := byte('a' + v.Concretize(v.Int("opKeyIdx", 0, 3))) // a..d, fixed once chosen
 		d := byte('7' + step)
 		key := string([]byte{k})
@@ -164,8 +164,23 @@ func VerifC15ObjectOps() {
 			}
 		case 2: // read only
 			_ = root.Get(key)
+		case 3: // Pop removes the last member that is still there
+			v.Assume(k == 'a') // the key argument is unused: one representative
+			if m.live() > 0 {
+				v.Assert(root.Pop() == nil, "Pop fails")
+				for i := len(m.keys) - 1; i >= 0; i-- {
+					if m.keys[i] != 0 {
+						m.keys[i] = 0
+						break
+					}
+				}
+				v.Cover("pop")
+			}
 		}
 		verifCheckObject(&root, m, "after an operation")
+		if l, err := root.Len(); err == nil {
+			v.Assert(l == m.live(), "Len differs from the number of members of the model")
+		}
 	}
 	v.Cover("end")
 }
